@@ -41,9 +41,15 @@ structure Inter where
   rest : String
   deriving DecidableEq, Repr, Inhabited
 
+/-- one entry of `molecule.meta` whose value is a dictionary: `define` (name -> [value]) or
+`pre_section_lines` / `post_section_lines` (section -> lines); keys sorted by the harness (python
+compares dictionaries regardless of order) -/
+abbrev MetaDict := List (String × List Val)
+
 structure Mol where
   nrexcl : Option Int
   ff : Option Int                      -- identity of the force field object (None = none)
+  metadata : List (String × MetaDict)      -- `molecule.meta` without the moltype, sorted by key
   nodes : List Atom                    -- in node (insertion) order
   edges : List (Int × Int)             -- the *set* of undirected edges in canonical order
   inters : List (String × List Inter)  -- interaction categories sorted by name, lists in order
@@ -126,10 +132,21 @@ def nodesSame (close : Val → Val → Bool) : List Atom → List Atom → Bool
 /-- the relevant interaction categories: those that actually hold interactions -/
 def relevantInters (m : Mol) : List (String × List Inter) := m.inters.filter (fun p => !p.2.isEmpty)
 
+/-- `molecule.meta.get(key)` -/
+def metaGet (m : Mol) (k : String) : Option MetaDict :=
+  (m.metadata.find? (fun p => p.1 == k)).map (·.2)
+
+/-- `written_meta` of `share_moltype_with`: the parts of the metadata that are compared -/
+def writtenMeta : List String := ["define", "pre_section_lines", "post_section_lines"]
+
+/-- the meta entries `write_molecule_itp` reads (besides the moltype, which is the name itself) -/
+def itpMetaKeys : List String := ["define", "post_section_lines", "pre_section_lines"]
+
 /-- `molecule.share_moltype_with(template)`; `close x y` = `numpy.isclose(x, y)` with `x` from
 the molecule and `y` from the template -/
 def shareMolType (close : Val → Val → Bool) (m t : Mol) : Bool :=
-  m.nrexcl == t.nrexcl && m.ff == t.ff && nodesSame close m.nodes t.nodes
+  m.nrexcl == t.nrexcl && m.ff == t.ff && writtenMeta.all (fun k => metaGet m k == metaGet t k)
+    && nodesSame close m.nodes t.nodes
     && m.edges == t.edges && relevantInters m == relevantInters t
 
 /-- exact integers in units of 1e-12: `|a - b| <= 1e-8 + 1e-5 * |b|` -/
